@@ -140,13 +140,13 @@ func (b *builder) add(kind byte, v []byte, req bool) []byte {
 	b.t.args = append(b.t.args, targ{b: v, kind: kind, req: req})
 	return v
 }
-func (b *builder) S() []byte         { return b.add('S', gS(b.r), true) }
-func (b *builder) I() []byte         { return b.add('I', gI(b.r), true) }
-func (b *builder) F() []byte         { return b.add('F', gF(b.r), true) }
-func (b *builder) R() []byte         { return b.add('R', gR(b.r), true) }
-func (b *builder) opt(kw string)     { b.add('o', randCase(b.r, kw), false) }
-func (b *builder) optI(v []byte)     { b.add('I', v, false) }
-func (b *builder) optS(v []byte)     { b.add('S', v, false) }
+func (b *builder) S() []byte     { return b.add('S', gS(b.r), true) }
+func (b *builder) I() []byte     { return b.add('I', gI(b.r), true) }
+func (b *builder) F() []byte     { return b.add('F', gF(b.r), true) }
+func (b *builder) R() []byte     { return b.add('R', gR(b.r), true) }
+func (b *builder) opt(kw string) { b.add('o', randCase(b.r, kw), false) }
+func (b *builder) optI(v []byte) { b.add('I', v, false) }
+func (b *builder) optS(v []byte) { b.add('S', v, false) }
 func (b *builder) list(min int) [][]byte {
 	n := min + b.r.Intn(4)
 	var out [][]byte
